@@ -255,7 +255,8 @@ impl Prop for C15 {
             .prop_flat_map(|(g, mb)| {
                 let al = alpha(g, mb);
                 (
-                    prop_oneof![16 => proptest::collection::vec(select(al), 0..=8).prop_map(|v| v.concat()), 1 => proptest::collection::vec(select(al), 9..=30).prop_map(|v| v.concat())],
+                    prop_oneof![16 => proptest::collection::vec(select(al), 0..=8).prop_map(|v| v.concat()), 1 => proptest::collection::vec(select(al), 9..=30).prop_map(|v| v.concat()),
+                        1 => gen::with_giant(proptest::collection::vec(select(al), 0..=6).prop_map(|v| v.concat()).boxed(), 2)],
                     1u8..16,
                     tables(al),
                     any::<bool>(),
@@ -338,7 +339,7 @@ impl Prop for C15 {
         // grapheme mode with units outside the closed pool: concatenation re-segments, the
         // single-edit explanation is not defined (KF4 lives there); such cases run for "never
         // panics" only, with the returned exclusion set clipped to the new word before it is fed back
-        let in_pool = |t: &str| gen::clusters(t, true).iter().all(|u| ALPHA_G.contains(u) || gen::CLOSED_POOL.contains(u));
+        let in_pool = |t: &str| gen::clusters(t, true).iter().all(|u| ALPHA_G.contains(u) || gen::CLOSED_POOL.contains(u) || *u == gen::GIANT);
         let totality_only = g
             && !strict
             && !(in_pool(&c.word)
